@@ -117,6 +117,8 @@ type runner struct {
 	timedOut      bool
 	workers       int
 	timeoutMs     int
+	xchecked      int
+	xdisagree     []string
 }
 
 func verifDir() string { return envOr("QSYM_VERIF", "/verif") }
@@ -237,6 +239,9 @@ func runCheck(args []string) int {
 	}
 	fmt.Printf("check %s %s: paths=%d obligations=%d discharged=%d undischarged=%d violations=%d known=%d unconfirmed=%d validated=%d mismatches=%d solver_queries=%d solver_s=%.1f wall=%.1fs\n",
 		id, tier, tot.Paths, tot.Obl, tot.Dis, und, nviol, len(r.matched), r.countStatus("unconfirmed"), validated, mismatches, r.sstats.Queries, r.sstats.Time.Seconds(), wall)
+	for _, d := range r.xdisagree {
+		broken = append(broken, "solver disagreement: "+d)
+	}
 	if len(broken) > 0 {
 		for _, b := range broken {
 			fmt.Println("BROKEN:", b)
@@ -266,6 +271,11 @@ func (r *runner) worker() {
 	sol := NewSolver(envOr("QSYM_SOLVER", "z3"), r.timeoutMs)
 	defer sol.Close()
 	ex := NewExec(r.P.prog, sol)
+	if r.tier == "thorough" {
+		ex.xsample = 97
+	} else {
+		ex.xsample = 499
+	}
 	var local []task
 	for {
 		var t task
@@ -417,6 +427,8 @@ func (r *runner) worker() {
 		r.ranges[k] = v
 	}
 	r.axioms += ex.axioms
+	r.xchecked += ex.xchecked
+	r.xdisagree = append(r.xdisagree, ex.xdisagree...)
 	r.mu.Unlock()
 }
 
@@ -874,7 +886,9 @@ func (r *runner) writeEvidence(wall float64, validated, mismatches, nviol int, b
 		"solver_unknown":                r.sstats.Unknown,
 		"solver_fallbacks":              r.sstats.Fallbacks,
 		"solver_time_s":                 r.sstats.Time.Seconds(),
-		"solver_versions":               "z3 4.8.12 (primary, persistent -in, push/pop); z3 5.1.0 one-shot fallback on unknown",
+		"solver_versions":               "z3 4.8.12 (primary, persistent -in, push/pop; nlsat pipeline for non-linear queries); z3 5.1.0 / 4.8.12 one-shot fallback on unknown",
+		"cross_checked_with_z3_5.1.0":   r.xchecked,
+		"cross_check_disagreements":     r.xdisagree,
 		"violations_detail":             vl,
 		"budget_exhausted":              r.timedOut,
 		"broken":                        broken,
